@@ -17,11 +17,12 @@ from concurrent.futures import ThreadPoolExecutor
 
 import numpy as np
 
-from . import core
+from . import core, pylite_tie
 from .core import Case, cD, cN, cZ, cbool, clist
 from . import translate_frames as TF
 from . import translate_effects as TE
 
+obligations = pylite_tie.checks_obligations   # source-regenerated tie for check_data_names / check_extra_coords_names
 ID = "C20"
 PROPS_FILE = "Props/C20.v"
 IMPORTS = "From Verde Require Import Model.Checks Model.Frames Model.Effects."
